@@ -349,6 +349,13 @@ def do_actions(acts, where):
             if _flaky_counts[where] == act[1]:
                 emit('raise', where=where, exc=act[2] if len(act) > 2 else 'AssertionError', flaky=True)
                 raise make_exc(act[2] if len(act) > 2 else 'AssertionError', 'flaky: fails in execution %d only' % act[1])
+        elif kind == 'perturb_random':
+            # a test module (or something it imports) that uses the process-wide random generator at import time,
+            # differently in every process
+            import random
+            random.seed(os.getpid() * 7919 + time.monotonic_ns())
+            for _ in range(os.getpid() % 5):
+                random.random()
         elif kind == 'swap':
             # what test fixtures do to the std streams: ['swap', 'save'] (setUp: keep the current streams, install
             # private ones), ['swap', 'restore'] (tearDown/cleanup: put the kept ones back), ['swap', 'leak'] (rebind
@@ -611,7 +618,9 @@ def build_layers(spec, modname):
         if kind == 'class' and any(not isinstance(b, type) for b in bases):
             kind = 'inst'
         if kind == 'class':
-            ns = {'__module__': modname}
+            # ('modp': the layer *claims* to live in another module - only its dotted name changes, e.g. so that it
+            # sorts after the unit-test layer; nothing imports layers by name)
+            ns = {'__module__': L.get('modp', '') + modname}
             for h in L['hooks']:
                 ns[h] = classmethod(lambda cls, _h=h: _hook_body(cls, _h, lspecs))
             try:
@@ -619,7 +628,7 @@ def build_layers(spec, modname):
             except TypeError:   # no consistent MRO: fall back to an instance layer
                 kind = 'inst'
         if kind == 'inst':
-            obj = InstLayer(L['name'], modname, bases)
+            obj = InstLayer(L['name'], L.get('modp', '') + modname, bases)
             for h in L['hooks']:
                 setattr(obj, h, (lambda _o=obj, _h=h: _hook_body(_o, _h, lspecs)))
         layers.append(obj)
